@@ -617,6 +617,7 @@ func (p *Pipeline) Error(err string) {
 }
 
 func (p *Pipeline) finalize(event *Event, notifyInput bool, backEvent bool) {
+	verifFinalize(p, event, notifyInput, backEvent)
 	if event.IsTimeoutKind() || event.IsChildKind() {
 		return
 	}
